@@ -494,6 +494,13 @@ fn configs() -> Vec<CfgSpec> {
     v.push(CfgSpec { default: Bounds { pos_min: s(2), neg_max: s(1), ..Default::default() }, by_type: vec![t("AAAA", Bounds::default())] });
     v.push(CfgSpec { default: pos(None, s(1)), by_type: vec![t("CNAME", pos(s(3), None)), t("NS", pos(s(3), None))] });
     v.push(CfgSpec { default: neg(s(2), s(2)), by_type: vec![t("TXT", neg(None, s(0))), t("A", neg(s(3), None))] });
+    // all four bounds set to four DIFFERENT values (a swap of two adjacent same-typed bounds is visible), as the
+    // default and as a per-type override
+    v.push(CfgSpec { default: Bounds { pos_min: s(2), pos_max: s(3), neg_min: s(0), neg_max: s(1) }, by_type: vec![] });
+    v.push(CfgSpec {
+        default: Bounds { pos_min: s(2), pos_max: s(3), neg_min: s(0), neg_max: s(1) },
+        by_type: vec![t("A", Bounds { pos_min: s(0), pos_max: s(1), neg_min: s(2), neg_max: s(3) })],
+    });
     v
 }
 
@@ -984,6 +991,17 @@ fn main() {
     }
 
     if let Some((_key, case)) = ctx.replay_case() {
+        if let Some(path) = case["ctor"].as_str() {
+            let path = path.to_string();
+            ctx.with_local(|l| {
+                if path == "recursor" {
+                    seam::run_ctor_recursor(l);
+                } else {
+                    seam::run_ctor(l);
+                }
+            });
+            ctx.finish(false);
+        }
         if case["seam"].as_bool() == Some(true) {
             ctx.with_local(|l| {
                 seam::run(true, case["world"].as_str(), l);
@@ -1084,6 +1102,12 @@ fn main() {
     let seam_thread = std::thread::spawn(move || {
         let mut l = Local::default();
         let st = vcore::catch(|| seam::run(!quick, None, &mut l));
+        (l, st)
+    });
+    // construction-path family: the cache as a Resolver builds it from ResolverOpts (real time, ~3.2 s)
+    let ctor_thread = std::thread::spawn(move || {
+        let mut l = Local::default();
+        let st = vcore::catch(|| seam::run_ctor(&mut l) + seam::run_ctor_recursor(&mut l));
         (l, st)
     });
     let all_cfgs: Vec<usize> = (0..cfgs.len()).collect();
@@ -1543,6 +1567,20 @@ fn main() {
         }
     });
 
+    match ctor_thread.join() {
+        Ok((l, Ok(n))) => {
+            ctx.merge(l);
+            ctx.set("construction_path_family_lookups", json!(n));
+        }
+        Ok((l, Err(p))) => {
+            ctx.merge(l);
+            ctx.with_local(|l| l.violation(&format!("ctor:panic:{}", vcore::short_loc(&p.loc)), &p.msg, || json!({"ctor": "resolver"})));
+        }
+        Err(_) => ctx.machinery_failure("construction-path family thread died"),
+    }
+    if ctx.outcome_count("ctor:resolver:positive-probe") == 0 || ctx.outcome_count("ctor:resolver:negative-probe") == 0 {
+        ctx.machinery_failure("vacuous run: the construction-path family did not run its probes");
+    }
     match seam_thread.join() {
         Ok((l, Ok(st))) => {
             ctx.merge(l);
